@@ -24,6 +24,7 @@ event raises).  Oracle = ledger invariants, not a transcription of the pool:
 from __future__ import annotations
 
 import gc
+import re
 
 from hypothesis import strategies as st
 
@@ -57,6 +58,7 @@ ASSUMPTIONS = [
     "pool_timeout=0 so an exhausted QueuePool raises TimeoutError immediately instead of blocking",
 ]
 
+_INJ = re.compile(r"injected (?:disconnect|error) at (\w+)#(\d+)")
 SITES = ["connect", "ping", "rollback", "commit", "close", "cursor", "execute", "ev_checkout", "ev_reset"]
 ONE_HOLDER = ("static", "singleton", "assertion")
 
@@ -103,6 +105,7 @@ class _Run:
         self.handed_out = set()
         self.excluded = []
         self.generation_banned = set()
+        self.last_surfaced = None
 
     # ---- bookkeeping around one op
     def begin_op(self):
@@ -130,7 +133,8 @@ class _Run:
                 self.pool_wide(cid, "it is older than an InvalidatePoolError raised on checkout")
             elif site == "ev_checkout" and kind == "disconnect":
                 self.bans.ban(cid, "a checkout listener raised DisconnectionError for it")
-            elif ctxkind in ("conn-op", "conn-release") and raised and kind == "disconnect" and site in ("cursor", "execute", "commit", "rollback"):
+            elif (ctxkind in ("conn-op", "conn-release") and raised and kind == "disconnect" and site in ("cursor", "execute", "commit", "rollback")
+                  and self.last_surfaced == (site, k)):
                 # a disconnect a Connection detects always surfaces from the op; close()/connect faults are the pool's business
                 self.pool_wide(cid, "it is older than a disconnect detected by a Connection (pool-wide invalidation)")
             elif ctxkind == "raw-release" and site in ("rollback", "commit", "ev_reset"):
@@ -155,6 +159,8 @@ class _Run:
     def surfaced(self, e, where):
         self.errors += 1
         exc = self.sa.exc
+        m = _INJ.search(str(getattr(e, "orig", None) or e))
+        self.last_surfaced = (m.group(1), int(m.group(2))) if m else None  # the fault the caller actually saw
         if isinstance(e, exc.StatementError) and not isinstance(e, exc.DBAPIError) and isinstance(e.orig, exc.TimeoutError):
             # transparent reconnect of an invalidated Connection found the pool exhausted
             cfg = self.cfg
